@@ -358,6 +358,10 @@ type NegCase struct {
 	CliMsize uint32 `json:"cli_msize"`
 	SrvDotu  bool   `json:"srv_dotu"`
 	Version  []byte `json:"version"`
+	// Refused: msizes (< 24) of Tversions sent first on the same connection;
+	// each must be refused and must leave the connection as it was
+	Refused    []uint32 `json:"refused,omitempty"`
+	RefusedVer []byte   `json:"refused_version,omitempty"`
 }
 
 var srvMsizes = []uint32{0, 24, 25, 32, 64, 128, 4096, 8192, 65560, defMsize}
@@ -402,7 +406,21 @@ func runNeg(c *NegCase) error {
 	l := dialSrv(sv.Srv, "c12neg", S)
 	l.sv = sv
 	defer l.close()
+	for i, rm := range c.Refused {
+		if rm >= iohdr {
+			return fmt.Errorf("harness: a Tversion with msize %d is not refused", rm)
+		}
+		if err := l.negotiate(rm, c.RefusedVer, c.SrvDotu); err != errRefused {
+			if err == nil {
+				err = fmt.Errorf("harness: negotiate accepted msize %d", rm)
+			}
+			return fmt.Errorf("Tversion %d of the sequence (msize %d): %w", i+1, rm, err)
+		}
+	}
 	err := l.negotiate(c.CliMsize, c.Version, c.SrvDotu)
+	if len(c.Refused) > 0 && err != nil && err != errRefused && err != errTooBigTversion {
+		return fmt.Errorf("after %d refused Tversion(s) with msize %v on the same connection: %w", len(c.Refused), c.Refused, err)
+	}
 	switch err {
 	case errRefused:
 		hx.Label("neg refused")
@@ -462,6 +480,49 @@ func TestEnumNegotiation(t *testing.T) {
 	}
 	hx.ExtraAdd("negotiations", int64(n))
 	hx.Exhaustive("negotiation grid: server msize {unset, 24, 25, 32, 64, 128, 4096, 8192, 65560, 1 MiB+24} x client msize {0, 1, 23, 24, 25, s-1, s, s+1, 2^16, 2^31, 2^32-1} x server 9P2000.u on/off x version string {9P2000, 9P2000.u, 9P2000.L, 9P1999, empty, 300 arbitrary bytes}, raw Tversion, followed by Tattach and a refused Tclunk in the negotiated dialect")
+}
+
+// TestEnumNegotiationSequences: a refused Tversion has no side effects. On one
+// connection, one or two Tversions refused for msize < 24 (sent with the other
+// dialect's version string) are followed by a valid one, which must be answered
+// exactly as on a fresh connection; then Tattach and a refused Tclunk run in
+// the negotiated msize and dialect. (A second valid Tversion after a
+// successful one would be a mid-session renegotiation and is not generated.)
+func TestEnumNegotiationSequences(t *testing.T) {
+	idx, n := 0, 0
+	prefixes := [][]uint32{{0}, {1}, {7}, {18}, {19}, {23}, {23, 0}, {1, 23}}
+	for _, s := range []uint32{0, 24, 25, 64, 128, 8192} {
+		S := eff(s)
+		for _, d := range []bool{false, true} {
+			for _, pre := range prefixes {
+				for _, c := range uniq([]uint32{24, 64, 128, S - 1, S, S + 1, 0xFFFFFFFF}) {
+					for _, v := range []string{"9P2000", "9P2000.u"} {
+						idx++
+						if hx.NShards > 1 && idx%hx.NShards != hx.Shard {
+							continue
+						}
+						rv := "9P2000.u"
+						if v == rv {
+							rv = "9P2000"
+						}
+						nc := &NegCase{SrvMsize: s, CliMsize: c, SrvDotu: d, Version: []byte(v), Refused: pre, RefusedVer: []byte(rv)}
+						hx.Journal("neg", nc)
+						hx.Eval()
+						hx.Sample("neg", nc)
+						hx.Label("neg sequence refused-then-valid")
+						hx.NonTrivial("negseq", s, c, d, v, fmt.Sprint(pre))
+						n++
+						if err := finish(runNeg(nc)); err != nil {
+							hx.Violation("neg", nc, err.Error())
+							t.Fatalf("%+v: %v", nc, err)
+						}
+					}
+				}
+			}
+		}
+	}
+	hx.ExtraAdd("negotiation_sequences", int64(n))
+	hx.Exhaustive("negotiation sequences on one connection: refused Tversion msize {0, 1, 7, 18, 19, 23, (23,0), (1,23)} then valid msize {24, 64, 128, s-1, s, s+1, 2^32-1} x server msize {unset, 24, 25, 64, 128, 8192} x server 9P2000.u on/off x version {9P2000, 9P2000.u} (the refused ones carry the other string), followed by Tattach and a refused Tclunk")
 }
 
 // ---------------------------------------------------------------------------
